@@ -51,6 +51,10 @@ def check(ctx, progs):
     out["pinned_variant_refuted"] = (r.violated == inv)
     if r.violated != inv:
         raise Machinery("vacuity probe: pinned protocol not refuted for %s (%s)" % (inv, r.violated or r.error))
+    if crashes:
+        # why the digest is forgotten BEFORE the commands start: the simpler "each" design is refuted by a kill between exec and write
+        r = vlib.tlc(ctx, "SpokRun", cfg("each", True, 0, "Inv_C10"), files=[("program.json", pj)], workers=4, timeout=600)
+        out["each_variant_refuted_under_kills"] = (r.violated == "Inv_C10")
     # spec -> code: simulate the model, replay the environment actions into the real code, compare observations
     out["replay"] = simulate_replay(ctx, sel, 150 if quick else 1500, 8 if quick else 12)
     return out
